@@ -159,3 +159,15 @@ def fill(claim, NA):
 		  "CST vectors within the max-replenishment-time bounds, relabelled copies, serial-vs-tree agreement.",
 		  "Trusted: Lean kernel + 3 axioms; harness; math.sqrt cost tables (FP); NetworkX. Open: global optimality of the Graves-Willems tree DP is not a theorem (exhaustive "
 		  "comparison per instance on trees <= 6 nodes = labelled test); relabel_nodes correctness is observed through relabelling invariance only.")
+
+	claim('C16',
+		  "What a theorem can carry here is the LOGIC of generation, not the randomness. Theorems (Props/C16.lean): demand_cycle and explicit_cycle (deterministic demand lists and "
+		  "explicit disruption lists are replayed cyclically: value at t is list[t mod len], period len), support_normal / support_uniform_discrete / support_uniform_continuous "
+		  "(whenever the primitive's value lies in the primitive's documented range the generated demand lies in the declared support), uniform_continuous_primitive (the sampler "
+		  "arguments are (lo, hi)), round_close, probs_accepted, steady_state_balance ((beta, alpha)/(alpha+beta) is a probability vector solving the balance equation), "
+		  "markov_step_thresholds, conv_first_moment (+ C20's lsum_conv, convMany_sum_one, convMany_nn: lead-time demand by L-fold convolution is a pmf with mean L*mu). "
+		  "Tie (deterministic): NumPy samplers replaced by a recording stub - sampler name, arguments and post-processing vs the model for every type, parameters, rounding on/off; "
+		  "reported mean/sd/cdf vs the distribution object and the definition; lead_time_demand_distribution vs model convolution / Irwin-Hall and L*mu, L*sigma^2; probability "
+		  "vectors summing to one within rounding; Markov thresholds, explicit lists, steady state.",
+		  "Trusted: Lean kernel + 3 axioms; harness. RNG: that NumPy's samplers realise their documented distributions and that empirical frequencies converge cannot be exhibited "
+		  "by an executable model (partial claim, see DESIGN.md); SciPy distribution objects; FFT convolution (1e-9). Variance additivity of the convolution is checked numerically only.")
